@@ -602,7 +602,18 @@ class Context(Ctx):
                 ptypes.append(t)
             sig = FuncSig(name, fname, params, ptypes, defaults, None, False, 'Gen.%s.%s' % (mt.ns, mangle(fname)))
             sig.done = False
+            sig.guessed = {p for p in params if p in defaults and defaults[p] is None and prof.get(p) in (None, 'none')}
             self.sigs[(name, fname)] = sig
+        # a None-default parameter that was never observed: take the type of the same-named parameter of a
+        # sibling function (it is typically passed straight through)
+        sibs = [s_ for (m_, _f), s_ in self.sigs.items() if m_ == name]
+        for s_ in sibs:
+            for i, p in enumerate(s_.params):
+                if p in getattr(s_, 'guessed', ()):
+                    for o in sibs:
+                        if o is not s_ and p in o.params and p not in getattr(o, 'guessed', ()):
+                            s_.ptypes[i] = t_opt(o.ptypes[o.params.index(p)])
+                            break
 
     def compute_today(self):
         direct = set()
